@@ -75,6 +75,9 @@ type config struct {
 	// ipfshttp.Connector (HTTP over in-bubble pipes) instead of the model's
 	// own IPFSConnector interface
 	RealConn bool
+	// FailCanceled: a daemon failure surfaces as context.Canceled, the error
+	// the real connector returns when it abandons a stalled pin/add
+	FailCanceled bool
 }
 
 // pass bounds one DFS: instructions per path and deviations per path.
@@ -188,6 +191,9 @@ func newWorld(cfg config) *world {
 			return clus.Park
 		}
 		return clus.Apply
+	}
+	if cfg.FailCanceled {
+		w.model.FailErr = context.Canceled
 	}
 	tc := &stateless.Config{}
 	tc.Default()
